@@ -224,7 +224,7 @@ def run(ctx):
     R = {k: v for k, v in R.items() if k.startswith("label::") or k.startswith("<") and "label::" in k or "engine::Condition::get_" in k}
     ctx.units["reader_closure"] = sorted(R)
     sites = ledger.enumerate_sites(p, R)
-    ctx.anchor("C17-R5", "panic-capable sites in the label reader", len(sites), 8)
+    ctx.anchor("C17-R5", "panic-capable sites in the label reader", len(sites), 5)
     for s in sites:
         r = t1(s)
         if r:
